@@ -116,6 +116,7 @@ pub fn judge(acc: &mut Acc, wd: &mut Workdir, src: &str, args: &[i64], reference
 
 pub fn run(ctx: &Ctx, acc: &mut Acc) {
     let mut wd = Workdir::new(&format!("c01-{}", ctx.shard));
+    super::corpus::c01(ctx, acc, &mut wd);
     let max_cases: u64 = if ctx.quick() { 400 } else { 1_000_000 };
     let mut i = 0u64;
     while ctx.time_left() && i < max_cases {
@@ -165,6 +166,8 @@ pub fn replay(payload: &J, acc: &mut Acc) {
         .get("expected_result")
         .and_then(|s| s.as_str())
         .and_then(|s| s.strip_prefix("Ok(").and_then(|x| x.strip_suffix(')')).and_then(|x| x.parse::<i64>().ok()));
+    let corpus = payload.get("kind").and_then(|k| k.as_str()) == Some("corpus-native");
+    let end = if corpus { end.or(Some(i64::MIN)) } else { end };
     let Some(end) = end else {
         acc.infra("replay: no expected result");
         return;
@@ -201,7 +204,7 @@ fn replay_raw(acc: &mut Acc, wd: &mut Workdir, src: &str, args: &[i64], referenc
                 cmd.arg(a.to_string());
             }
             if let Ok(r) = native::run_exe(&mut cmd, Duration::from_secs(20)) {
-                if r.stdout != reference.stdout || r.status != Some((reference.end & 0xff) as i32) {
+                if r.stdout != reference.stdout || (reference.end != i64::MIN && r.status != Some((reference.end & 0xff) as i32)) {
                     acc.violation("C01:replay", format!("still differs: got {:?}/{:?}", String::from_utf8_lossy(&r.stdout), r.status), J::obj());
                 }
             }
